@@ -22,6 +22,8 @@ FLAVOURS = {
     "safe-asan": {"cxx": "g++", "flags": SAN + ["-DNDEBUG", "-DSIM_NO_ASSERTIONS", "-DTETL_ENABLE_CONTRACT_CHECKS_SAFE=1"], "run_scale": 0.35},
     # the shipped default: no contract macros
     "off-asan": {"cxx": "g++", "flags": SAN, "run_scale": 0.35},
+    # the shipped default without sanitizers (cheap enough for the quick tier of C04)
+    "off-O2": {"cxx": "g++", "flags": ["-O2"], "run_scale": 0.3},
     "chk-O0": {"cxx": "g++", "flags": ["-O0", "-DTETL_ENABLE_CONTRACT_CHECKS=1"], "run_scale": 0.5},
     # a second compiler (clang 14 cannot compile the bitset and variant headers - P0634 and pack-expansion gaps - so those two
     # families are g++ only; tuple_cat does not compile either and is skipped by the fn driver under clang); exercises the `#if defined(__clang__)` branches and another optimiser
@@ -58,7 +60,7 @@ PROPS = {
                 "clamp/refusal clause) and the expected state; size<=capacity and data()[size()]==0 are checked after every step. "
                 "Non-trivial and distinct as for C01",
         "assumptions": COMMON_ASSUME,
-        "quick": {"flavours": ["chk-O2"], "runs": 1200000, "max_seconds": 40},
+        "quick": {"flavours": ["chk-O2", "off-O2"], "runs": 1200000, "max_seconds": 40},
         "thorough": {"flavours": ["chk-O2", "chk-asan", "off-asan", "chk-O0", "chk-clang"], "runs": 12000000, "max_seconds": 240},
     },
     "C07": {
